@@ -483,7 +483,7 @@ class Body:
             elif k == 'subslice':
                 e = ('subslice', e, el['from'], el['to'], el['from_end'])
             elif k == 'downcast':
-                e = ('variant', e, str(el['variant']))
+                e = mk_variant(e, str(el['variant']))
             else:
                 e = ('unknown', k)
         return e
@@ -529,6 +529,9 @@ class Body:
 
     def call_expr(self, cs, seen=()):
         args = tuple(self.op_expr(a, seen) for a in cs.args)
+        if cs.name.endswith('from_residual') and args and args[0][0] == 'aggr' and args[0][1] == 'adt' and \
+                args[0][2].endswith(('Result::Err', 'Option::None')):
+            return args[0]  # `Err(e)?` returns Err(From::from(e)); the conversion is value-preserving for provenance
         if cs.kind == 'indirect':
             return ('call', '<indirect>', (self.op_expr(cs.fnptr, seen),) + args, cs.site)
         return ('call', cs.name, args, cs.site)
@@ -888,6 +891,26 @@ def mk_ref(e):
     return ('ref', e)
 
 
+def mk_variant(e, v):
+    if e[0] == 'aggr' and e[1] == 'adt':
+        if e[2].endswith('::' + v):
+            return e  # projection onto the variant the value was built as
+        return ('never',)  # projecting another variant of a value built as this one: dead path
+    if e[0] == 'phi':
+        alts = [mk_variant(x, v) for x in e[1]]
+        alts = [a for a in alts if a != ('never',)]
+        uniq = []
+        for a in alts:
+            if a not in uniq:
+                uniq.append(a)
+        if not uniq:
+            return ('never',)
+        return uniq[0] if len(uniq) == 1 else ('phi', tuple(uniq))
+    if e[0] == 'never':
+        return e
+    return ('variant', e, v)
+
+
 def mk_try(x):
     """success payload of `?` applied to x; sees through Ok(..) constructions and phis of them"""
     if x[0] == 'aggr' and x[1] == 'adt' and x[2].endswith(('Result::Ok', 'Option::Some')) and x[3]:
@@ -925,7 +948,17 @@ def mk_field(e, name):
         if e[2] == 'Continue' and inner[0] == 'call' and 'Try' in inner[1] and inner[1].endswith('branch') and name == '0':
             return mk_try(inner[2][0])
     if k == 'phi':
-        return ('phi', tuple(mk_field(x, name) for x in e[1]))
+        alts = [mk_field(x, name) for x in e[1]]
+        alts = [a for a in alts if a != ('never',)]
+        uniq = []
+        for a in alts:
+            if a not in uniq:
+                uniq.append(a)
+        if not uniq:
+            return ('never',)
+        return uniq[0] if len(uniq) == 1 else ('phi', tuple(uniq))
+    if k == 'never':
+        return e
     return ('field', e, name)
 
 
@@ -1048,7 +1081,7 @@ def subst(e, mapping):
         if e[2] in mapping:
             return mapping[e[2]]
         return e
-    if e[0] in ('int', 'bool', 'str', 'bytes', 'unit', 'const', 'fn', 'local', 'cyc', 'unknown'):
+    if e[0] in ('int', 'bool', 'str', 'bytes', 'unit', 'const', 'fn', 'local', 'cyc', 'unknown', 'never'):
         return e
     out = []
     for c in e:
@@ -1072,7 +1105,7 @@ def subst(e, mapping):
     return r
 
 
-_KINDS = {'int', 'bool', 'str', 'bytes', 'unit', 'const', 'named', 'fn', 'param', 'local', 'field', 'deref',
+_KINDS = {'never', 'int', 'bool', 'str', 'bytes', 'unit', 'const', 'named', 'fn', 'param', 'local', 'field', 'deref',
           'ref', 'idx', 'cidx', 'subslice', 'variant', 'discr', 'call', 'bin', 'un', 'cast', 'aggr', 'phi',
           'cyc', 'unknown', 'try', 'ovf'}
 
@@ -1084,7 +1117,16 @@ class Program:
         self.facts = facts
         self.meta = facts['meta']
         self.bodies = {}
-        for raw in facts['bodies']:
+        raw_by_path = {r['path']: r for r in facts['bodies']}
+        known = load_known_functions()
+        merged, used = inline_helpers(raw_by_path, known)
+        self.inlined_helpers = sorted(used)
+        for path, raw in merged.items():
+            if path in used:
+                # a helper that was merged into its callers: keep it only if something still calls it directly
+                still = any(_call_target_path(bl['term']) == path for r2 in merged.values() for bl in r2['blocks'] if bl['term']['k'] == 'call')
+                if not still:
+                    continue
             b = Body(self, raw)
             self.bodies[b.path] = b
         self.adts = {a['path']: a for a in facts['adts']}
@@ -1638,3 +1680,309 @@ def _canon_l(e, keep_casts, d, labels):
 
 
 _LBL = []
+
+
+# ------------------------------------------------------------------------------------------
+# CFG-level inlining of crate-local helper functions that did not exist on the pinned tree.
+# Extracting a helper function is the most common behaviour-preserving refactoring; inlining such helpers back
+# (at the MIR level) lets every rule see one merged body, so the verdict does not depend on whether a piece
+# of code sits in the function itself or in a private helper it calls.
+
+import copy as _copy
+import os as _os
+
+
+def load_known_functions():
+    p = _os.path.join(_os.path.dirname(_os.path.abspath(__file__)), 'known_functions.txt')
+    try:
+        with open(p) as f:
+            return set(x.strip() for x in f if x.strip())
+    except OSError:
+        return None
+
+
+def _call_target_path(term):
+    f = term.get('func')
+    if not f or f.get('k') != 'const' or 'fn' not in f:
+        return None
+    fn = f['fn']
+    r = fn.get('resolved')
+    if r and r.get('kind') == 'virtual':
+        return None
+    if r and r.get('local'):
+        return r['path']
+    if fn.get('local'):
+        return fn['path']
+    return None
+
+
+def _shift_place(p, lo):
+    q = dict(p)
+    q['l'] = p['l'] + lo
+    q['p'] = [dict(e, local=e['local'] + lo) if e.get('k') == 'index' else e for e in p['p']]
+    return q
+
+
+def _shift_op(o, lo):
+    if o.get('k') in ('copy', 'move'):
+        return dict(o, place=_shift_place(o['place'], lo))
+    return o
+
+
+def _shift_rv(rv, lo):
+    r = dict(rv)
+    for k in ('op', 'a', 'b'):
+        if k in r and isinstance(r[k], dict):
+            r[k] = _shift_op(r[k], lo)
+    if 'place' in r:
+        r['place'] = _shift_place(r['place'], lo)
+    if 'ops' in r:
+        r['ops'] = [_shift_op(o, lo) for o in r['ops']]
+    return r
+
+
+def _shift_block(blk, lo, bo, ret_local, dest, target):
+    nb = {'stmts': [], 'term': None}
+    if blk.get('cleanup'):
+        nb['cleanup'] = True
+    for s in blk['stmts']:
+        if s['k'] == 'assign':
+            nb['stmts'].append(dict(s, place=_shift_place(s['place'], lo), rv=_shift_rv(s['rv'], lo)))
+        elif s['k'] == 'setdiscr':
+            nb['stmts'].append(dict(s, place=_shift_place(s['place'], lo)))
+        else:
+            nb['stmts'].append(s)
+    t = dict(blk['term'])
+    k = t['k']
+    if k == 'return':
+        # hand the return value to the caller's destination and continue there
+        span = t.get('span', {})
+        nb['stmts'].append({'k': 'assign', 'place': dest,
+                            'rv': {'k': 'use', 'op': {'k': 'move', 'place': {'l': ret_local, 'p': [], 'ty': dest.get('ty', '')}}},
+                            'span': span})
+        if target is None:
+            t = {'k': 'unreachable', 'span': span}
+        else:
+            t = {'k': 'goto', 'target': target, 'span': span}
+        nb['term'] = t
+        return nb
+    for key in ('target', 'otherwise', 'cleanup'):
+        if key in t and isinstance(t[key], int):
+            t[key] = t[key] + bo
+    if k == 'switch':
+        t['arms'] = [[v, bb + bo] for v, bb in t['arms']]
+        t['discr'] = _shift_op(t['discr'], lo)
+    elif k == 'call':
+        t['func'] = _shift_op(t['func'], lo)
+        t['args'] = [_shift_op(a, lo) for a in t['args']]
+        t['dest'] = _shift_place(t['dest'], lo)
+    elif k == 'assert':
+        t['cond'] = _shift_op(t['cond'], lo)
+        t['ops'] = [_shift_op(o, lo) for o in t['ops']]
+    elif k == 'drop':
+        t['place'] = _shift_place(t['place'], lo)
+    nb['term'] = t
+    return nb
+
+
+def inline_helpers(raw_by_path, known, max_rounds=6):
+    """returns (new_raw_by_path, inlined_paths): every call to a crate-local, non-closure body whose path is not in
+    `known` is replaced by a copy of the callee's CFG (transitively, non-recursively)."""
+    if not known:
+        return raw_by_path, set()
+    helpers = {p for p, r in raw_by_path.items() if p not in known and r.get('kind') in ('Fn', 'AssocFn')}
+    if not helpers:
+        return raw_by_path, set()
+    out = {}
+    used = set()
+    for path, raw in raw_by_path.items():
+        cur = raw
+        stack_guard = 0
+        changed = True
+        rounds = 0
+        while changed and rounds < max_rounds:
+            changed = False
+            rounds += 1
+            for bi, blk in enumerate(cur['blocks']):
+                t = blk['term']
+                if t['k'] != 'call':
+                    continue
+                tp = _call_target_path(t)
+                if tp is None or tp not in helpers or tp == path:
+                    continue
+                callee = raw_by_path[tp]
+                if len(t['args']) != callee['arg_count']:
+                    continue
+                if cur is raw:
+                    cur = _copy.deepcopy(raw)
+                    blk = cur['blocks'][bi]
+                    t = blk['term']
+                lo = len(cur['locals'])
+                bo = len(cur['blocks'])
+                cur['locals'].extend(_copy.deepcopy(callee['locals']))
+                for d in callee.get('debug', []):
+                    v = d['val']
+                    if 'l' in v:
+                        cur['debug'].append({'name': d['name'], 'val': _shift_place(v, lo), 'arg': None})
+                # parameter passing
+                span = t.get('span', {})
+                for i, a in enumerate(t['args']):
+                    pl = {'l': lo + 1 + i, 'p': [], 'ty': callee['locals'][1 + i]['ty']}
+                    blk['stmts'].append({'k': 'assign', 'place': pl, 'rv': {'k': 'use', 'op': a}, 'span': span})
+                dest, target = t['dest'], t['target']
+                for cb in callee['blocks']:
+                    cur['blocks'].append(_shift_block(cb, lo, bo, lo, dest, target))
+                blk['term'] = {'k': 'goto', 'target': bo, 'span': span}
+                used.add(tp)
+                changed = True
+                break
+        if cur is not raw:
+            thread_known_variants(cur)
+        out[path] = cur
+    return out, used
+
+
+# ------------------------------------------------------------------------------------------
+# Jump threading for freshly built enum values (after inlining): a helper that returns `Err(x)` and is called
+# with `?` produces  r = Err(x); goto J; J: b = Try::branch(r); d = discriminant(b); switch d.  The join at J
+# forgets under which condition r was built. Threading duplicates the short chain per predecessor and resolves
+# the switch, so each path keeps its own guards (this is plain constant propagation of the discriminant).
+
+_VARIANT_INDEX = {'Ok': 0, 'Err': 1, 'None': 0, 'Some': 1, 'Continue': 0, 'Break': 1}
+
+
+def _is_try_branch(t):
+    if t['k'] != 'call':
+        return False
+    f = t['func']
+    return f.get('k') == 'const' and 'fn' in f and f['fn']['path'].endswith('Try::branch')
+
+
+def thread_known_variants(raw, max_chain=8, max_rounds=40):
+    blocks = raw['blocks']
+    changed_any = False
+    for _ in range(max_rounds):
+        changed = False
+        npred = {}
+        for b in blocks:
+            t = b['term']
+            if b.get('cleanup'):
+                continue
+            for tgt in _targets_of(t):
+                npred[tgt] = npred.get(tgt, 0) + 1
+        for pi, P in enumerate(blocks):
+            if P.get('cleanup') or P['term']['k'] not in ('goto', 'drop'):
+                continue
+            # last whole-local aggregate assignment of an enum variant in P
+            known = {}
+            for s in P['stmts']:
+                if s['k'] == 'assign' and not s['place']['p']:
+                    rv = s['rv']
+                    if rv['k'] == 'aggr' and rv.get('akind') == 'adt' and rv.get('variant') in _VARIANT_INDEX and \
+                            re.search(r'(result::Result|option::Option|ops::ControlFlow)$', rv.get('adt', '')):
+                        known[s['place']['l']] = (rv['variant'], rv['ops'][0] if rv['ops'] else None, rv)
+                    elif rv['k'] == 'use' and rv['op'].get('k') == 'move' and not rv['op']['place']['p'] and rv['op']['place']['l'] in known:
+                        known[s['place']['l']] = known[rv['op']['place']['l']]
+                    else:
+                        known.pop(s['place']['l'], None)
+            if not known:
+                continue
+            chain = []
+            cur = P['term']['target']
+            resolved = None
+            kn = dict(known)
+            new_stmts_per_block = []
+            while len(chain) < max_chain:
+                B = blocks[cur]
+                if B.get('cleanup'):
+                    break
+                stmts = []
+                ok = True
+                discr_of = {}
+                for s in B['stmts']:
+                    if s['k'] != 'assign':
+                        stmts.append(s)
+                        continue
+                    rv = s['rv']
+                    pl = s['place']
+                    if rv['k'] == 'use' and rv['op'].get('k') in ('move', 'copy') and not rv['op']['place']['p'] and rv['op']['place']['l'] in kn and not pl['p']:
+                        kn[pl['l']] = kn[rv['op']['place']['l']]
+                    elif rv['k'] == 'discr' and not rv['place']['p'] and rv['place']['l'] in kn and not pl['p']:
+                        discr_of[pl['l']] = _VARIANT_INDEX[kn[rv['place']['l']][0]]
+                    elif not pl['p']:
+                        kn.pop(pl['l'], None)
+                    stmts.append(s)
+                t = B['term']
+                if t['k'] == 'goto':
+                    chain.append((cur, stmts, None))
+                    cur = t['target']
+                    continue
+                if t['k'] == 'drop' and not (not t['place']['p'] and t['place']['l'] in kn):
+                    chain.append((cur, stmts, None, t))
+                    cur = t['target']
+                    continue
+                if _is_try_branch(t) and t['args'] and t['args'][0].get('k') == 'move' and not t['args'][0]['place']['p'] \
+                        and t['args'][0]['place']['l'] in kn and not t['dest']['p'] and t['target'] is not None:
+                    var, payload, rv0 = kn[t['args'][0]['place']['l']]
+                    span = t.get('span', {})
+                    if var in ('Ok', 'Some'):
+                        st = {'k': 'assign', 'place': t['dest'], 'span': span,
+                              'rv': {'k': 'aggr', 'akind': 'adt', 'adt': 'std::ops::ControlFlow', 'adt_full': 'std::ops::ControlFlow', 'variant': 'Continue',
+                                     'fields': ['0'], 'ops': [payload] if payload is not None else []}}
+                        kn[t['dest']['l']] = ('Continue', payload, None)
+                        chain.append((cur, stmts + [st], None))
+                    else:
+                        # residual = the Err/None value itself (Result<Infallible, E> / Option<Infallible>)
+                        tmp = len(raw['locals'])
+                        raw['locals'].append({'ty': 'residual'})
+                        st1 = {'k': 'assign', 'place': {'l': tmp, 'p': [], 'ty': 'residual'}, 'span': span, 'rv': dict(rv0)}
+                        st2 = {'k': 'assign', 'place': t['dest'], 'span': span,
+                               'rv': {'k': 'aggr', 'akind': 'adt', 'adt': 'std::ops::ControlFlow', 'adt_full': 'std::ops::ControlFlow', 'variant': 'Break',
+                                      'fields': ['0'], 'ops': [{'k': 'move', 'place': {'l': tmp, 'p': [], 'ty': 'residual'}}]}}
+                        kn[t['dest']['l']] = ('Break', None, None)
+                        chain.append((cur, stmts + [st1, st2], None))
+                    cur = t['target']
+                    continue
+                if t['k'] == 'switch' and t['discr'].get('k') in ('move', 'copy') and not t['discr']['place']['p'] and t['discr']['place']['l'] in discr_of:
+                    val = discr_of[t['discr']['place']['l']]
+                    tgt = None
+                    for v, bb in t['arms']:
+                        if int(v) == val:
+                            tgt = bb
+                    if tgt is None:
+                        tgt = t['otherwise']
+                    chain.append((cur, stmts, tgt))
+                    resolved = tgt
+                break
+            if resolved is None or not chain:
+                continue
+            # materialise private copies of the chain for P
+            first_new = len(blocks)
+            for ci, item in enumerate(chain):
+                bidx, stmts, tgt = item[0], item[1], item[2]
+                nb = {'stmts': _copy.deepcopy(stmts)}
+                span = blocks[bidx]['term'].get('span', {})
+                nxt = first_new + ci + 1 if ci + 1 < len(chain) else tgt
+                if len(item) > 3:
+                    nb['term'] = dict(item[3], target=nxt)
+                else:
+                    nb['term'] = {'k': 'goto', 'target': nxt, 'span': span}
+                blocks.append(nb)
+            P['term'] = dict(P['term'], target=first_new)
+            changed = True
+            changed_any = True
+            break
+        if not changed:
+            break
+    return changed_any
+
+
+def _targets_of(t):
+    k = t['k']
+    if k == 'goto':
+        return [t['target']]
+    if k == 'switch':
+        return [bb for _, bb in t['arms']] + [t['otherwise']]
+    if k in ('call', 'assert', 'drop'):
+        return [t['target']] if t.get('target') is not None else []
+    return []
